@@ -13,27 +13,8 @@ LEVEL = "exploration"
 
 
 def published_helpers(chk):
-    """callbacks and iterators as a C user builds them with the helpers of the published header
-    (COLLECT_CB, COLLECT_CB_INTO_ARR, COUNT_CB, BUF_ITER_SPEC), driven the way the Rust side drives them"""
     import bgrun
-    from bgrun import emit
-    binary = bgrun.tool()
-    n = 0
-    for name, model in [("plugin-api", emit.plugin_api_model())] + [("h%d" % i, emit.random_model(chk.seed * 100 + i)) for i in range(2 if chk.tier == "quick" else 12)]:
-        w = os.path.join(WORK, "c16hdr", chk.tier, name)
-        em = emit.emit(model)
-        r = bgrun.run_tool(binary, w, em.text, config=None)
-        if r["rc"] != 0 or not r["text"]:
-            chk.incon("cglue-bindgen failed on %s: %s" % (name, r["err"][-300:]))
-            continue
-        res = bgrun.drive(w, em, model, r["out_path"], r["text"])
-        hv, k = res.get("helpers", ([], 0))
-        n += k
-        for sig, d in hv[:2]:
-            chk.violation("C16:" + sig, "header of %s: %s" % (name, d), dict(model=name))
-    chk.part("published-header-helpers", helper_cases=n)
-    chk.floor("header helper cases", n, 50)
-    return n
+    return bgrun.helpers_step(chk, "C16")
 
 
 def run(chk, replay=None):
